@@ -141,7 +141,8 @@ fn setup(c: &Case, attempt: usize) -> PlanSetup {
     // obstacle placement posture: between two consecutive generating vectors
     let n = joints.len();
     let seg = ((c.obstacle_at.abs() * (n as f64 - 1.0)).floor() as usize).min(n.saturating_sub(2));
-    let f = (c.obstacle_at.abs() * (n as f64 - 1.0)).fract();
+    // a negative value places the obstacle posture exactly at a generating vector (a landing / stroke / parking pose itself)
+    let f = if c.obstacle_at < 0.0 { 0.0 } else { (c.obstacle_at.abs() * (n as f64 - 1.0)).fract() };
     let j_ref: [f64; 6] = std::array::from_fn(|k| joints[seg][k] + f * (joints[(seg + 1).min(n - 1)][k] - joints[seg][k]));
     match c.obstacle % 3 {
         0 => scene.env.clear(),
@@ -228,9 +229,9 @@ impl Property for C12 {
         "C12"
     }
     fn rule(&self) -> String {
-        "model-based histories: slim box-bodied robots with limits; start inside the limit box; landing / 0..4 stroke poses / parking = model FK of a generated joint-space polyline (per-joint steps small (<= 0.15 rad) => feasible, or up to 1 rad => may fail); \
+        "model-based histories: slim box-bodied robots with limits; start inside the limit box; landing / 0..4 stroke poses / parking = model FK of a generated joint-space polyline (per-joint steps small (<= 0.15 rad) => feasible, or up to 1 rad => may fail; one segment in 14 turns the tool in place (J6 only), one repeats the pose); \
          check steps 0.01..0.2 m / 1..20 degrees, cost limit 2..30 degrees, recursion depth 0..8, include_linear_interpolation in {true,false}, transition coefficients default or random; obstacle layouts free / box at 3 x safety distance from the tool at a path posture / box on the tool \
-         at an interpolated posture; RRT step 2..8 degrees and budget 50..2000; every plan is run under rayon pools of 1, 2, 4 and 16 threads, twice each; in the second run under 2, 4 and 16 threads the harness slows down the IK calls of some strategies (selected by the sign pattern of J1/J3/J5 of their joints), so that the order in which strategies finish changes. Oracle: validity predicate over every waypoint of every returned plan. \
+         at an interpolated posture or (one in four) exactly at a stroke pose; RRT step 2..8 degrees and budget 50..2000; every plan is run under rayon pools of 1, 2, 4 and 16 threads, twice each; in the second run under 2, 4 and 16 threads the harness slows down the IK calls of some strategies (selected by the sign pattern of J1/J3/J5 of their joints), so that the order in which strategies finish changes. Oracle: validity predicate over every waypoint of every returned plan. \
          Non-trivial: a successful plan with >= 1 interpolated waypoint (or, with include=false, a successful plan)."
             .into()
     }
@@ -246,9 +247,13 @@ impl Property for C12 {
     }
     fn strategy(&self, _tier: Tier) -> BoxedStrategy<Case> {
         let delta = prop_oneof![
-            4 => prop::array::uniform6(-0.15..0.15f64),
-            1 => prop::array::uniform6(-0.5..0.5f64),
-            1 => prop::array::uniform6(-1.0..1.0f64),
+            8 => prop::array::uniform6(-0.15..0.15f64),
+            2 => prop::array::uniform6(-0.5..0.5f64),
+            2 => prop::array::uniform6(-1.0..1.0f64),
+            // the tool turns in place: only the last joint moves (same tool point, another orientation)
+            1 => (0.05..0.5f64, any::<bool>()).prop_map(|(d, n)| [0.0, 0.0, 0.0, 0.0, 0.0, if n { -d } else { d }]),
+            // the same pose twice
+            1 => Just([0.0; 6]),
         ];
         (
             planning_scene(1),
@@ -256,7 +261,7 @@ impl Property for C12 {
             prop::array::uniform6(0.2..0.8f64),
             prop::collection::vec(delta, 2..=6),
             (0.01..0.2f64, 1.0..20.0f64, 2.0..30.0f64, 0u8..9, any::<bool>()),
-            (0u8..3, 0.0..1.0f64, 2.0..8.0f64, prop_oneof![Just(50u32), Just(500u32), Just(2000u32)]),
+            (0u8..3, prop_oneof![3 => 0.0..1.0f64, 1 => -1.0..-0.01f64], 2.0..8.0f64, prop_oneof![Just(50u32), Just(500u32), Just(2000u32)]),
             prop_oneof![2 => Just(None), 1 => prop::array::uniform6(0.5..1.5f64).prop_map(Some)],
         )
             .prop_map(|(scene, limits, start_u, deltas, (check_step_m, check_step_deg, max_cost_deg, depth, include), (obstacle, obstacle_at, rrt_step_deg, rrt_max_try), coeffs)| Case {
